@@ -766,15 +766,19 @@ func main() {
 		}
 		t0 = time.Now()
 	}
+	nArith, nProg, nPre := r.Scale(4000, 40000), r.Scale(2500, 30000), r.Scale(1000, 12000)
+	if r.Mode == "precompile" { // only the precompile stream (used by C09: a transaction to a precompile must be priced and executed as the reference does)
+		nArith, nProg, nPre = 0, 0, r.Scale(4000, 40000)
+	}
 	// 1. word arithmetic: three ways (Lean model, in-tree, reference)
-	for q := r.Scale(4000, 40000); q > 0; q-- {
+	for q := nArith; q > 0; q-- {
 		code, sym := arithProgram(R)
 		line := fmt.Sprintf("run block=7 acct=0xaa:0:1000000::,0xc1:1:0:%x: msg=call from=0xaa to=0xc1 value=0 input=", code)
 		scenarioArith(r, ref, line, "arith "+sym)
 	}
 	phase("arith")
 	// 2. whole programs: contracts calling each other
-	for q := r.Scale(2500, 30000); q > 0; q-- {
+	for q := nProg; q > 0; q-- {
 		ca := program(R, 0, R.Range(3, 40))
 		cb := program(R, 1, R.Range(2, 25))
 		cc := program(R, 2, R.Range(1, 20))
@@ -796,7 +800,7 @@ func main() {
 	}
 	phase("programs")
 	// 3. precompiles: required gas and output on adversarial inputs
-	for q := r.Scale(1000, 12000); q > 0; q-- {
+	for q := nPre; q > 0; q-- {
 		addr := R.Range(1, 8)
 		var in []byte
 		switch {
